@@ -73,6 +73,8 @@ func inertOptions(r *RNG, origin string) M {
 	}
 	// (creation options only) the attestation conveyance preference handed to the client: a wish, not a policy
 	m["attestation"] = hx([]byte(pick(r, []string{"", "none", "indirect", "direct", "enterprise"})))
+	// the client extension outputs that come with the credential (appid, credProps, uvm, largeBlob, unknown ones): not consulted
+	m["clientExt"] = r.Intn(7)
 	return m
 }
 
@@ -141,7 +143,16 @@ func buildAssertion(r *RNG, s *AuthSpec) M {
 		ad.RPIDHash = sha(s.RPID)
 	}
 	if s.d("ad.rpIdHash") {
-		alts := [][]byte{sha([]byte(s.Origin)), sha([]byte("evil.example")), r.Bytes(32), sha([]byte(hostOf(s.Origin) + ".")), make([]byte, 32)}
+		alts := [][]byte{sha([]byte(s.Origin)), sha([]byte("evil.example")), r.Bytes(32), sha([]byte(hostOf(s.Origin) + ".")), make([]byte, 32),
+			sha(nil), sha([]byte("https://example.com/appid.json")), sha([]byte("https://" + hostOf(s.Origin)))}
+		if r.Bool() {
+			// with client extension outputs that name the legacy AppID mechanism (which the options may or may not have asked for)
+			if s.Inert == nil {
+				s.Inert = inertOptions(r, s.Origin)
+			}
+			s.Inert["clientExt"] = pick(r, []int{2, 5, 2})
+			s.Inert["ext"] = r.Bool()
+		}
 		if s.Inert == nil {
 			s.Inert = inertOptions(r, s.Origin)
 		}
